@@ -4574,12 +4574,11 @@ load_message (DBusMessageLoader *loader,
           goto failed;
         }
 
-      message->n_unix_fds_allocated = message->n_unix_fds = n_unix_fds;
-      loader->n_unix_fds -= n_unix_fds;
-      memmove (loader->unix_fds, loader->unix_fds + n_unix_fds, loader->n_unix_fds * sizeof (loader->unix_fds[0]));
-
-      if (loader->unix_fds_change)
-        loader->unix_fds_change (loader->unix_fds_change_data);
+      /* Only the array is allocated here. The descriptors themselves stay
+       * with the loader until nothing can fail any more (see below), so
+       * that an out-of-memory condition does not lose them. */
+      message->n_unix_fds_allocated = n_unix_fds;
+      message->n_unix_fds = 0;
     }
   else
     message->unix_fds = NULL;
@@ -4617,6 +4616,19 @@ load_message (DBusMessageLoader *loader,
       oom = TRUE;
       goto failed;
     }
+
+#ifdef HAVE_UNIX_FD_PASSING
+  /* Nothing can fail from here on: hand the descriptors over */
+  if (n_unix_fds > 0)
+    {
+      message->n_unix_fds = n_unix_fds;
+      loader->n_unix_fds -= n_unix_fds;
+      memmove (loader->unix_fds, loader->unix_fds + n_unix_fds, loader->n_unix_fds * sizeof (loader->unix_fds[0]));
+
+      if (loader->unix_fds_change)
+        loader->unix_fds_change (loader->unix_fds_change_data);
+    }
+#endif
 
   _dbus_string_delete (&loader->data, 0, header_len + body_len);
 
